@@ -52,6 +52,7 @@ type NodeMachine struct {
 	Seq      int
 	Window   int64
 	Irrev    int64
+	IrrevBlk int             // model index of the block applied at the irreversible height (-1: none yet)
 	KeyUniv  map[string]bool // raw keys ever written or read by generated programs
 	AddrUniv []string
 	// statistics for non-triviality rules / labels
@@ -69,7 +70,7 @@ func NewNodeMachine(opts NodeOpts, fs *FindingSet) (*NodeMachine, error) {
 		return nil, err
 	}
 	nm := &NodeMachine{N: n, FS: fs, BlockTxs: map[int][]*pb.Transaction{}, States: map[int]*MState{}, Valid: map[int]bool{},
-		Seq: 100, Window: opts.Window, KeyUniv: map[string]bool{}, Stat: map[string]int{}, Specs: map[string]TxSpec{}}
+		Seq: 100, IrrevBlk: -1, Window: opts.Window, KeyUniv: map[string]bool{}, Stat: map[string]int{}, Specs: map[string]TxSpec{}}
 	nm.LM = NewLedgerMachineOn(func() *ledgerpkg.Ledger { return nm.N.Ledger }, n.Root, fs)
 	s := NewMState()
 	root := CloneTxs(n.Root.Transactions)
@@ -769,6 +770,7 @@ func (nm *NodeMachine) applied(idx int) {
 	if nm.Window > 0 {
 		if h := nm.LM.M.Blocks[idx].Height - nm.Window; h > nm.Irrev {
 			nm.Irrev = h
+			nm.IrrevBlk = nm.LM.M.ancestorAt(idx, h)
 		}
 	}
 }
@@ -842,6 +844,12 @@ func (nm *NodeMachine) walk(target int, prune bool) error {
 		nm.Stat["walk-refused-irreversible"]++
 	}
 	nm.Ptr = ptr
+	if irrev != nm.Irrev || prune {
+		nm.IrrevBlk = -1
+		if irrev > 0 {
+			nm.IrrevBlk = m.ancestorAt(ptr, irrev)
+		}
+	}
 	nm.Irrev = irrev
 	if err != nil {
 		nm.LastOutcome = "failed"
@@ -1128,6 +1136,11 @@ func (nm *NodeMachine) CheckState() error {
 		return fmt.Errorf("model bug or conservation broken: sum(U)+pending fees=%s total=%s", sum, s.Total)
 	}
 	// irreversible height (C17)
+	if nm.Window > 0 && nm.Irrev > 0 && nm.IrrevBlk >= 0 {
+		if a := m.ancestorAt(nm.Ptr, nm.Irrev); a != nm.IrrevBlk {
+			return fmt.Errorf("the state machine is on a chain that excludes %s, the block applied at the irreversible height %d (its ancestor at that height is %s)", m.Blocks[nm.IrrevBlk].Label, nm.Irrev, lab(m, a))
+		}
+	}
 	meta := nm.N.State.GetMeta()
 	if meta.IrreversibleBlockHeight != nm.Irrev || meta.IrreversibleSlideWindow != nm.Window {
 		return fmt.Errorf("irreversible height=%d window=%d, model height=%d window=%d", meta.IrreversibleBlockHeight, meta.IrreversibleSlideWindow, nm.Irrev, nm.Window)
@@ -1291,6 +1304,7 @@ func (nm *NodeMachine) reconcile() error {
 	}
 	nm.Ptr = ptr
 	nm.Irrev = nm.N.State.GetMeta().IrreversibleBlockHeight
+	nm.IrrevBlk = -1
 	return nm.adoptPool(nm.Pool, nil, "an injected write error")
 }
 
